@@ -338,6 +338,10 @@ static inline std::string classify_stderr(const std::string &err)
     return kind;
 }
 
+// optional hooks run inside every forked child: at start, and just before its summary is written
+static std::function<void()> g_child_start;
+static std::function<void(Report &)> g_child_finish;
+
 struct ForkCfg
 {
     size_t group = 64;          // cases per child
@@ -394,6 +398,7 @@ static inline void run_forked(Report &rep, uint64_t n, const ForkCfg &cfg,
             Report crep;
             crep.prop = rep.prop; crep.out = rep.out; crep.fd = rep.fd; crep.t0 = Report::now();
             crep.nt_cap = std::min<size_t>(rep.nt_cap, 2048); crep.sample_cap = rep.sample_cap;
+            if (g_child_start) g_child_start();
             for (size_t k = pos; k < end; k++)
             {
                 uint64_t i = todo[k];
@@ -406,6 +411,7 @@ static inline void run_forked(Report &rep, uint64_t n, const ForkCfg &cfg,
                 body(i, crep);
                 slot->active = 0;
             }
+            if (g_child_finish) g_child_finish(crep);
             crep.finish();
             fflush(NULL);
             _exit(0);
